@@ -66,6 +66,10 @@ type Contract struct {
 	Mode     Mode
 	ModeSet  bool
 	Requires []*Clause
+	// GhostInit: initial values of this function's own ghost instrumentation
+	// (`ghostinit ghost(k,"n") == c && ...`): assumed at entry, NOT an
+	// obligation of callers; callers see the named ghosts as written.
+	GhostInit []*Clause
 	Ensures  []*Clause
 	Safe     bool
 	Pure     bool
@@ -89,7 +93,9 @@ type ContractFile struct {
 	Ghosts    map[string]string
 }
 
-var kwRe = regexp.MustCompile(`^(func|props|mode|requires|ensures_thorough|ensures|safe|pure|modifies|assumed|lemma|nonnil|loop|invariant|unroll|decreases|site|assert|assume|ghostset|ghostdecl|spec|note|end)\b`)
+var kwRe = regexp.MustCompile(`^(func|props|mode|requires|ghostinit|ensures_thorough|ensures|safe|pure|modifies|assumed|lemma|nonnil|loop|invariant|unroll|decreases|site|assert|assume|ghostset|ghostdecl|spec|note|end)\b`)
+var ghostInitRe = regexp.MustCompile(`^ghost\([A-Za-z0-9_.]+,\s*"[A-Za-z0-9_]+"\)\s*==\s*-?[0-9]+$`)
+var ghostNameRe = regexp.MustCompile(`ghost(?:at)?\((?:[^"]*)"([A-Za-z0-9_]+)"\)`)
 var labelRe = regexp.MustCompile(`^\[([A-Za-z0-9_.\-]+)\]\s*`)
 
 func parseExprClause(kind, text, file string, line int) (*Clause, error) {
@@ -204,6 +210,18 @@ func ParseContractFile(path, pkgPath string) (*ContractFile, error) {
 			} else {
 				cur.Ensures = append(cur.Ensures, c)
 			}
+			curLoop, curSite = nil, nil
+		case "ghostinit":
+			c, err := parseExprClause(kw, rest, path, rl.line)
+			if err != nil {
+				return nil, err
+			}
+			for _, conj := range strings.Split(c.Text, "&&") {
+				if !ghostInitRe.MatchString(strings.TrimSpace(conj)) {
+					return nil, fmt.Errorf("%s:%d: ghostinit must be a conjunction of ghost(k,\"name\") == constant", path, rl.line)
+				}
+			}
+			cur.GhostInit = append(cur.GhostInit, c)
 			curLoop, curSite = nil, nil
 		case "safe":
 			cur.Safe = true
